@@ -209,6 +209,75 @@ def readVars (fixed : Bool) (code : Bytes) : Nat → List Bool → ReadOut
     | .ok v p => let r := readVars fixed code p ts; ⟨v :: r.vals, r.err, r.pos⟩
     | .err e a ep => ⟨a.toList, some (e, ep), pos⟩
 
+/-! ### READ targets: scalars and array elements
+
+  `Parser._parse_var_list` is a lazy generator and `Interpreter.read_` loops `for name, indices in args`:
+  the subscripts of a target are evaluated when the loop reaches it, i.e. after the items of all
+  earlier targets of the same statement have been assigned.  Subscript expressions are modelled by the
+  form  <scalar variable> + <constant>;  `conv` is the number conversion (a parameter, as elsewhere). -/
+
+structure Store where
+  scal : Nat → Val
+  arr : Nat → Nat → Val
+
+inductive Target
+  | scalar (v : Nat)
+  | elem (a : Nat) (iv : Nat) (off : Nat)     -- A(iv + off)
+  deriving DecidableEq, Repr
+
+def subscript (conv : Bytes → Nat) (st : Store) (iv off : Nat) : Nat :=
+  (match st.scal iv with
+   | .num w => conv w
+   | .str _ => 0) + off
+
+/-- the memory cell a target denotes once its subscript has been evaluated -/
+inductive Slot
+  | s (v : Nat)
+  | e (a k : Nat)
+  deriving DecidableEq, Repr
+
+def slotOf (conv : Bytes → Nat) (st : Store) : Target → Slot
+  | .scalar v => .s v
+  | .elem a iv off => .e a (subscript conv st iv off)
+
+def put (st : Store) : Slot → Val → Store
+  | .s v, x => { st with scal := fun i => if i = v then x else st.scal i }
+  | .e a k, x => { st with arr := fun b j => if b = a ∧ j = k then x else st.arr b j }
+
+/-- `set_variable(name, indices, value)` with the indices evaluated in the store as it is now -/
+def assign (conv : Bytes → Nat) (st : Store) (tg : Target) (x : Val) : Store :=
+  put st (slotOf conv st tg) x
+
+/-- `Interpreter.read_` over (kind, target) pairs, threading the variable store -/
+def readAssign (fixed : Bool) (code : Bytes) (conv : Bytes → Nat) :
+    Nat → Store → List (Bool × Target) → Store × Option (Nat × Option Int) × Nat
+  | pos, st, [] => (st, none, pos)
+  | pos, st, (t, tg) :: rest =>
+    match readEntry fixed code pos t with
+    | .ok v p => readAssign fixed code conv p (assign conv st tg v) rest
+    | .err e a ep =>
+      ((match a with
+        | some v => assign conv st tg v
+        | none => st), some (e, ep), pos)
+
+/-- the same loop over targets whose subscripts were all evaluated beforehand -/
+def readAssignSlots (fixed : Bool) (code : Bytes) :
+    Nat → Store → List (Bool × Slot) → Store × Option (Nat × Option Int) × Nat
+  | pos, st, [] => (st, none, pos)
+  | pos, st, (t, sl) :: rest =>
+    match readEntry fixed code pos t with
+    | .ok v p => readAssignSlots fixed code p (put st sl v) rest
+    | .err e a ep =>
+      ((match a with
+        | some v => put st sl v
+        | none => st), some (e, ep), pos)
+
+/-- NOT the code: a variable list parsed completely before the loop starts (every subscript evaluated in
+    the store the statement started with).  Kept for the `_counterexample` theorem only. -/
+def readAssignEager (fixed : Bool) (code : Bytes) (conv : Bytes → Nat) (pos : Nat) (st : Store)
+    (tgs : List (Bool × Target)) : Store × Option (Nat × Option Int) × Nat :=
+  readAssignSlots fixed code pos st (tgs.map (fun x => (x.1, slotOf conv st x.2)))
+
 /-- `Interpreter.restore_`: `tbl` is `program.line_numbers` (line number ↦ offset of the line's NUL) -/
 def restore (tbl : List (Nat × Nat)) : Option Nat → R Nat
   | none => .ok 0
